@@ -311,7 +311,7 @@ def make_overlay(fams, families, inject_tests=None, tag=""):
 # --------------------------------------------------------------------------
 
 CHECK_RE = re.compile(
-    r"Check (\d+): (\S+)\n\s+- Status: (\w+)\n\s+- Description: \"(.*)\"\n\s+- Location: (.*)")
+    r"Check (\d+): ([^\n]+)\n\s+- Status: (\w+)\n\s+- Description: \"(.*)\"\n\s+- Location: (.*)")
 
 
 def run_proc(cmd, cwd, timeout, mem_gb, logpath):
